@@ -143,6 +143,10 @@ pub trait Fl: 'static {
     fn out_list(n: &Self::Node) -> Vec<(K, EV)>;
     /// directed: iter_in as (peer, value); undirected: received half-edges
     fn in_list(n: &Self::Node) -> Vec<(K, EV)>;
+    /// a plain edge loop `for e in n.iter_out()` (directed, dir_in = false), `n.iter_in()`
+    /// (dir_in = true; the edge is reported reversed, as the traversals do) or `n.iter()`
+    /// (undirected); `body` runs between two `next()` calls
+    fn edge_loop(n: &Self::Node, dir_in: bool, body: &mut dyn FnMut(K, K, EV));
     /// `for e in &node` (IntoIterator): directed = out edges, undirected = adjacency
     fn into_iter_list(n: &Self::Node) -> Vec<Triple>;
     /// redundant observers for the keys given, in the shape of `Obs` in Adjacency.tla
@@ -420,6 +424,17 @@ macro_rules! directed_flavour {
                     }
                     v
                 }
+                fn edge_loop(n: &Self::Node, dir_in: bool, body: &mut dyn FnMut(K, K, EV)) {
+                    if dir_in {
+                        for e in n.iter_in() {
+                            body(*e.1.key(), *e.0.key(), e.2);
+                        }
+                    } else {
+                        for e in n.iter_out() {
+                            body(*e.0.key(), *e.1.key(), e.2);
+                        }
+                    }
+                }
                 fn obs(n: &Self::Node, keys: &[K]) -> Value {
                     let conn: Vec<bool> = keys.iter().map(|k| n.is_connected(k)).collect();
                     let fo: Vec<bool> = keys
@@ -563,6 +578,11 @@ macro_rules! undirected_flavour {
                         v.push((*e.0.key(), *e.1.key(), e.2));
                     }
                     v
+                }
+                fn edge_loop(n: &Self::Node, _dir_in: bool, body: &mut dyn FnMut(K, K, EV)) {
+                    for e in n.iter() {
+                        body(*e.0.key(), *e.1.key(), e.2);
+                    }
                 }
                 fn obs(n: &Self::Node, keys: &[K]) -> Value {
                     let conn: Vec<bool> = keys
